@@ -11,6 +11,7 @@
 -/
 import MxModel.Gen.KGov
 import MxModel.Lemmas.KernelTags
+import MxModel.Lemmas.KernelTags2
 import MxModel.Lemmas.KTactic
 import MxModel.Lemmas.GovSpec
 
@@ -243,5 +244,27 @@ example : KGov.withdraw_veto_split 1000 2500 = some (250, 750) := by decide
 example : KGov.withdraw_veto_split 1000 10010 = none := by decide
 example : KGov.try_change_quorum_percentage 6000 = none := by decide
 example : KGov.try_change_quorum_percentage 1000 = some 1000 := by decide
+
+/-! ### the whole `match vote { … }` of `vote` (session 4: the translator reads `match`) -/
+
+/-- the `match` on the vote type that ends `vote`, as ONE translated fragment: for the vote type
+    with index `v.tag` (`UpVote, DownVote, DownVetoVote, AbstainVote`) the five tallies after the
+    update are those of the model's `Proposal.addVote v` — the arm selection (which counter a vote
+    type feeds) is part of the translated source.  Result order (alphabetical):
+    `(abstain, down_veto, down, quorum, up)` -/
+theorem vote_apply_eq (p : Proposal) (v : Vote) (power e : Nat) :
+    KGov.vote_apply p.abstain p.veto p.down p.quorum p.up e v.tag power =
+      some ((p.addVote v power e).abstain, (p.addVote v power e).veto, (p.addVote v power e).down,
+            (p.addVote v power e).quorum, (p.addVote v power e).up) := by
+  cases v <;> k_defs [KGov.vote_apply, Proposal.addVote, Vote.tag] <;> try k_solve
+
+/-- a vote-type index outside the enum aborts (cannot be decoded on chain) -/
+theorem vote_apply_bad_tag (a b c d e f g n : Nat) (h : 4 ≤ n) :
+    KGov.vote_apply a b c d e f n g = none := by
+  obtain ⟨k, rfl⟩ : ∃ k, n = k + 4 := ⟨n - 4, by omega⟩
+  rfl
+
+example : KGov.vote_apply 1 2 3 4 5 10 2 7 = some (1, 9, 3, 14, 5) := by decide
+example : KGov.vote_apply 1 2 3 4 5 10 0 7 = some (1, 2, 3, 14, 12) := by decide
 
 end Mx.KGov
